@@ -11,13 +11,12 @@ mod verif_kani_install_manifest {
         i / 8 < mask.len() && (mask[i / 8] >> (7 - (i % 8))) & 1 == 1
     }
 
-    /// C19 (bounded: <= 9 files, 2 tags "a"/"b", any masks, any sizes): all-of / any-of queries and
+    /// C19 (bounded: exactly 9 files, 2 tags "a"/"b", any masks, any sizes): all-of / any-of queries and
     /// the size total equal intersection / union / sum over the oracle bit sets
     #[kani::proof]
     #[kani::unwind(12)]
     fn tag_queries_match_set_model_bounded() {
-        let n: usize = kani::any();
-        kani::assume(n <= 9);
+        let n: usize = 9;
         let ma: [u8; 2] = kani::any();
         let mb: [u8; 2] = kani::any();
         let sizes: [u32; 9] = kani::any();
@@ -62,6 +61,6 @@ mod verif_kani_install_manifest {
         }
         assert!(cb == both.len() && cany == any.len() && ca == only_a.len(), "no extra files selected");
         assert!(m.calculate_install_size(&["a", "b"]) == total, "size total == sum over the selected set");
-        kani::cover!(n == 9 && cb == 2);
+        kani::cover!(cb == 2);
     }
 }
